@@ -5,9 +5,13 @@ TRUSTED_BASE = {
     "items": [
         "Coq 8.16.1 kernel, coqc, vm_compute (no native_compute); std++ 1.8.0 and the Coq standard library",
         "axioms: none (Print Assumptions under every property theorem reports 'Closed under the global context')",
-        "hand-written Gallina models in /verif/coq/theories tied to /repo by the correspondence run only "
+        "hand-written Gallina models in /verif/coq/theories tied to /repo by (a) the correspondence run "
         "(differential testing: Go harness /verif/harness built against /repo with -tags verif, Cases_*.v evaluated with vm_compute, "
-        "comparators in theories/Check.v)",
+        "comparators in theories/Check.v) and (b) for the functions named in the level text, tie lemmas (theories/Tie*.v) about their bodies as "
+        "re-translated from /repo on every run by the translators harness/cmd/gofunc (function bodies -> Generated/Funcs.v, a plain "
+        "syntax-directed dump plus constant folding by go/types) and harness/cmd/goextract (lock sets and critical sections -> "
+        "Generated/Struct.v); the interpreter of the dumped bodies (theories/GoIR.v: CPS over an environment of locals and selector "
+        "paths, per-tie primitive tables, symbolic floats) and the translators are trusted",
         "Go 1.26.8 toolchain and testing/synctest fake clock for the harness; /repo's own go.mod language level",
         "bin/check (driver), harness case printer",
     ],
@@ -37,9 +41,10 @@ PROPS = {
         "level_note": "Trusted: Coq kernel; hand-written Index.v (differential tie, ~220 structures per quick run); count exactness is checked by the correspondence run, the theorem states 0 <= count; concurrency of AddLabels/Invalidate is represented by deterministic interleaving points only (data-race freedom is C16).",
     },
     "C06": {
+        "struct": True,
         "tests": ["TestC06"],
         "design_ref": "DESIGN.md §3.6",
-        "level_text": "Theorems C06_builder_ttls_minimal_nonzero (WithTTL(ctx,ttl,true) repeated keeps the smallest non-zero TTL, negative ones included), C06_cell_changes_only_in_builder / C06_other_gets_do_not_touch_the_cell (the TTL cell of a Get changes only when its builder returns, by exactly the builder's updates; the stale re-store and all other steps leave it alone; the background build starts with the caller's cell, key and SkipRead flag), C06_store_ttls (every backend write is the final store with the cell's TTL, 0 = backend default, or the re-store of the stale value with UpdateTTL), C06_no_cell_nothing_to_update, C06_skip_still_stores; C06_detached_context (theories/Ctx.v models a context as a chain of value / cancel / deadline layers with the library's detachedContext as a layer of its own: for EVERY caller chain, every set of cancel functions already called, every instant and any further value layers, the background builder's context has Err()=nil, Done()=nil, no deadline, and resolves every key as the caller's context does), C06_cancellation_is_permanent, C06_context_observation — Coq, no axioms. Correspondence: the wrapping backend records TTL(ctx) of every Write; builders record Err (entry and exit), Done, Deadline and Value of their context on every Get path, with callers that cancel before the call, in the middle of the build or after return, or carry a 1h / 5s deadline, and Ctx.v predicts each of these observations from the caller's chain, the cancellations so far and the fake clock; predicates c06_get_ok and ctxobs_prop on every trace.",
+        "level_text": "Theorems C06_builder_ttls_minimal_nonzero (WithTTL(ctx,ttl,true) repeated keeps the smallest non-zero TTL, negative ones included), C06_cell_changes_only_in_builder / C06_other_gets_do_not_touch_the_cell (the TTL cell of a Get changes only when its builder returns, by exactly the builder's updates; the stale re-store and all other steps leave it alone; the background build starts with the caller's cell, key and SkipRead flag), C06_store_ttls (every backend write is the final store with the cell's TTL, 0 = backend default, or the re-store of the stale value with UpdateTTL), C06_no_cell_nothing_to_update, C06_skip_still_stores; C06_detached_context (theories/Ctx.v models a context as a chain of value / cancel / deadline layers with the library's detachedContext as a layer of its own: for EVERY caller chain, every set of cancel functions already called, every instant and any further value layers, the background builder's context has Err()=nil, Done()=nil, no deadline, and resolves every key as the caller's context does), C06_cancellation_is_permanent, C06_context_observation — Coq, no axioms. Correspondence: the wrapping backend records TTL(ctx) of every Write; builders record Err (entry and exit), Done, Deadline and Value of their context on every Get path, with callers that cancel before the call, in the middle of the build or after return, or carry a 1h / 5s deadline, and Ctx.v predicts each of these observations from the caller's chain, the cancellations so far and the fake clock; predicates c06_get_ok and ctxobs_prop on every trace. Tie to the source: C06_source_with_ttl / C06_source_ttl — the bodies of WithTTL and TTL (context.go), re-translated from /repo on every run by harness/cmd/gofunc into the IR of theories/GoIR.v, compute upd_cell / cell_ttl for every cell content, TTL and updateExisting flag.",
         "level_note": "Trusted: as C01; interpretations O3 (no TTL cell in the caller's context: builder updates have nothing to update) and O6 (a SkipRead Get that finds the key locked accepts the owner's result). The standard library's WithValue / WithCancel / WithDeadline are modelled by their documented contract (Ctx.v), the library's detachedContext by its four methods.",
     },
     "C05": {
@@ -85,27 +90,31 @@ PROPS = {
         "level_note": 'Trusted: encoding/gob is modelled by two rules (zero fields omitted; decode leaves absent fields untouched); the aliasing of a reused byte slice is not modelled (the harness compares keys byte-exactly).',
     },
     "C18": {
+        "struct": True,
         "tests": ["TestC18"],
         "design_ref": "DESIGN.md §3.18",
-        "level_text": "Theorems C18_backend_totals / C18_backend_step (every backend operation's metric events match its accounting, any hash/config/sequence) and C18_failover_builds_counted / C18_failover_totals (at quiescence cache_build = builder invocations, cache_failed = failed builds, cache_refreshed = stale re-stores, under every interleaving) (Coq, no axioms). Correspondence: counting StatsTracker on backend sequences and on steered Failover workloads.",
+        "level_text": "Theorems C18_backend_totals / C18_backend_step (every backend operation's metric events match its accounting, any hash/config/sequence) and C18_failover_builds_counted / C18_failover_totals (at quiescence cache_build = builder invocations, cache_failed = failed builds, cache_refreshed = stale re-stores, under every interleaving) (Coq, no axioms). Correspondence: counting StatsTracker on backend sequences and on steered Failover workloads. Tie to the source: C18_source_read_metrics — both PrepareRead bodies, re-translated from /repo on every run, emit exactly the one metric event the model's b_read emits.",
         "level_note": 'Trusted: as C07 and C01; metric names/labels as emitted through the StatsTracker interface.',
     },
     "C12": {
+        "struct": True,
         "tests": ["TestC12"],
         "design_ref": "DESIGN.md §3.12",
-        "level_text": 'Theorems C12_rank (for any sort that returns a sorted permutation), C12_amount, C12_untouched, C12_count_target, C12_only_on_breach (Coq, no axioms). Correspondence: real cleanup path with CountSoftLimit / EvictionNeeded / never-exceeded memory limits, all strategies; rank is checked against the TRUE access history kept by the model, counts against exact rationals of the float fraction (within one entry + 2^-30).',
+        "level_text": 'Theorems C12_rank (for any sort that returns a sorted permutation), C12_amount, C12_untouched, C12_count_target, C12_only_on_breach (Coq, no axioms). Correspondence: real cleanup path with CountSoftLimit / EvictionNeeded / never-exceeded memory limits, all strategies; rank is checked against the TRUE access history kept by the model, counts against exact rationals of the float fraction (within one entry + 2^-30). Tie to the source: C12_source_eviction_decision (the body of Trait.invokeCleanup, re-translated from /repo on every run, calls Evict iff a soft limit is exceeded or EvictionNeeded() holds, with EvictFraction (0 -> 0.1) rescaled on a count breach to 1 - CountSoftLimit*(1-frac)/count), C12_source_count_overflow, C12_source_usage_counter (PrepareRead maintains the LRU/LFU counter as the model\'s bump).',
         "level_note": 'Trusted: as C07; HeapInUse/SysMem breaches are not produced (only never-exceeded limits); EvictMostExpired ranks never-expiring entries first (DESIGN O1).',
     },
     "C11": {
+        "struct": True,
         "tests": ["TestC11"],
         "design_ref": "DESIGN.md §3.11",
-        "level_text": 'Theorems C11_cycle_exact, C11_survivors, C11_cycles_only_remove (Coq, no axioms): a cleanup cycle removes exactly the entries with E != 0 and E < now - DeleteExpiredAfter (or nothing while UnlimitedTTL has seen no expiration); survivors survive any number of cycles. Correspondence: VerifCleanup and the real janitor goroutine driven by the fake clock, every cycle bracketed by Walks.',
+        "level_text": 'Theorems C11_cycle_exact, C11_survivors, C11_cycles_only_remove (Coq, no axioms): a cleanup cycle removes exactly the entries with E != 0 and E < now - DeleteExpiredAfter (or nothing while UnlimitedTTL has seen no expiration); survivors survive any number of cycles. Correspondence: VerifCleanup and the real janitor goroutine driven by the fake clock, every cycle bracketed by Walks. Tie to the source: C11_source_cleanup_cycle (the body of Trait.invokeCleanup, re-translated from /repo on every run, runs the scan iff TimeToLive is finite or expirationsSet > 0, with boundary now - DeleteExpiredAfter) and C11_source_delete_expired (the three deleteExpired loops remove an entry iff E <> 0 and E < boundary).',
         "level_note": "Trusted: as C07; ExpireAll on an UnlimitedTTL cache that never saw a per-call TTL is outside C11's quantifier (DESIGN O7).",
     },
     "C10": {
+        "struct": True,
         "tests": ["TestC10"],
         "design_ref": "DESIGN.md §3.10",
-        "level_text": "Theorem C10_bounds (Coq, no axioms): expiry = never iff unlimited and no context TTL; exactly t+T without jitter; within |T|J/2 (+ stated IEEE slack |T|/2^50 ns) and never collapsing to 'never' with jitter, for all T in Z; C10_read_threshold, C10_expired_at_is_walk_instant on the reference map. Correspondence is exact: fake clock to the ns, jitter draw predicted by a mirrored seeded math/rand and compared against the exact rational T*J*(r-1/2).",
+        "level_text": "Theorem C10_bounds (Coq, no axioms): expiry = never iff unlimited and no context TTL; exactly t+T without jitter; within |T|J/2 (+ stated IEEE slack |T|/2^50 ns) and never collapsing to 'never' with jitter, for all T in Z; C10_read_threshold, C10_expired_at_is_walk_instant on the reference map. Correspondence is exact: fake clock to the ns, jitter draw predicted by a mirrored seeded math/rand and compared against the exact rational T*J*(r-1/2). Tie to the source: C10_source_ttl (the body of Trait.TTL, re-translated from /repo on every run, computes the model's trait_ttl with the jitter term Duration(float64(T)*ExpirationJitter*(rand.Float64()-0.5)) for any float-to-integer conversion), C10_source_expire_at, C10_source_threshold (PrepareRead's expiry test is the model's).",
         "level_note": 'Trusted: the float rounding slack (two IEEE-754 roundings + truncation) is a stated bound, validated on every run against exact rationals, not derived from a float model.',
     },
     "C09": {
@@ -115,18 +124,20 @@ PROPS = {
         "level_note": 'Trusted: as C07 and C01; collision construction is checked against the real xxhash before use.',
     },
     "C07": {
+        "struct": True,
         "tests": ["TestC07"],
         "design_ref": "DESIGN.md §3.7",
-        "level_text": 'Theorem C07_refines (Coq, no axioms): for every hash function, configuration and operation sequence whose keys do not collide, the hashed backend model returns exactly what the reference map with per-entry expiry returns (Walk up to order) and emits the same metric events; C07_syncmap: an injective hash (SyncMap) always qualifies; clause-by-clause corollaries on the reference map. Correspondence: random sequences on the three real backends on an exact fake clock, jitter predicted by a mirrored seeded math/rand.',
+        "level_text": 'Theorem C07_refines (Coq, no axioms): for every hash function, configuration and operation sequence whose keys do not collide, the hashed backend model returns exactly what the reference map with per-entry expiry returns (Walk up to order) and emits the same metric events; C07_syncmap: an injective hash (SyncMap) always qualifies; clause-by-clause corollaries on the reference map. Correspondence: random sequences on the three real backends on an exact fake clock, jitter predicted by a mirrored seeded math/rand. Tie to the source: C07_source_read_found / _missing / C07_model_read_is_prepare_read — the bodies of Trait.PrepareRead and TraitOf[V].PrepareRead, re-translated from /repo on every run (harness/cmd/gofunc -> Generated/Funcs.v, interpreter theories/GoIR.v), compute the model\'s read classification, usage counter and metric event for EVERY entry, instant, strategy and logger/tracker presence.',
         "level_note": 'Trusted: Coq kernel; hand-written Backend.v / Spec.v (tied by ~300 sequences per quick run); xxhash64 values as printed by the harness; map iteration order treated as arbitrary (Walk compared as a set).',
     },
     "C17": {
+        "struct": True,
         "tests": ["TestC17"],
         "design_ref": "DESIGN.md §3.17",
         "level_text": "Theorems C17_sequential / C17_concurrent / C17_nothing (Coq, no axioms) over all call sequences, clock readings, "
                       "callback lists, SkipInterval values and all interleavings of a small-step model with the mutex explicit; "
                       "tied to invalidator.go by a sequential fake-clock correspondence run (exact, boundary ns included) and "
-                      "free-running concurrent runs checked against the block structure the theorem states.",
+                      "free-running concurrent runs checked against the block structure the theorem states. Tie to the source: C17_source_invalidate — the body of Invalidator.Invalidate, re-translated from /repo on every run, is the model's invalidate (nil test before the mutex; Lock first and deferred Unlock around every store and the callback loop; default interval; refusal wrapping ErrAlreadyInvalidated; fresh stamp; callbacks in slice order iff accepted).",
         "level_note": "Trusted: Coq kernel; the hand-written model of Invalidate (correspondence = differential testing); sync.Mutex "
                       "semantics; concurrent runs sample schedules only (callbacks run under the library mutex and cannot be steered).",
         "assumptions": [
